@@ -289,3 +289,36 @@ Definition one_subject (t : tuple) : bool :=
   match t_sid t, t_sset t with Some _, None | None, Some _ => true | _, _ => false end.
 Definition atmost_one_subject (q : query) : bool :=
   match q_sid q, q_sset q with Some _, Some _ => false | _, _ => true end.
+
+(* ---------- cmd/relationtuple/parse.go: a text file of relationships ---------- *)
+(* lines are split at '\n', trimmed (strings.TrimSpace, ASCII white space here), empty lines and lines that START
+   with "//" are skipped, every other line goes through FromString; the first error ends the command *)
+Definition NL : byte := x0a.  Definition SLASH : byte := x2f.
+Definition is_ws (b : byte) : bool :=
+  beq b x20 || beq b x09 || beq b x0a || beq b x0b || beq b x0c || beq b x0d.
+Fixpoint trim_ws_l (s : bytes) : bytes := match s with c :: r => if is_ws c then trim_ws_l r else s | [] => [] end.
+Definition trim_ws (s : bytes) : bytes := rev (trim_ws_l (rev (trim_ws_l s))).
+Fixpoint split_nl (s : bytes) (cur : bytes) : list bytes :=
+  match s with
+  | [] => [rev cur]
+  | c :: r => if beq c NL then rev cur :: split_nl r [] else split_nl r (c :: cur)
+  end.
+Definition is_comment (row : bytes) : bool := match row with a :: b :: _ => beq a SLASH && beq b SLASH | _ => false end.
+Fixpoint parse_rows (rows : list bytes) : outcome (list tuple) :=
+  match rows with
+  | [] => Ok []
+  | row :: r =>
+    let row := trim_ws row in
+    match row with
+    | [] => parse_rows r
+    | _ => if is_comment row then parse_rows r else
+           match tuple_from_string row with
+           | Ok t => match parse_rows r with Ok l => Ok (t :: l) | e => e end
+           | Err e => Err e
+           | Panic => Panic
+           end
+    end
+  end.
+Definition parse_file (s : bytes) : outcome (list tuple) := parse_rows (split_nl s []).
+(* what the documentation writes: one relationship per line *)
+Definition print_file (ts : list tuple) : bytes := flat_map (fun t => tuple_string t ++ [NL]) ts.
